@@ -177,7 +177,7 @@ def oracle_sweep(ctx, pool, configs):
 
 
 def run(ctx):
-    ctx.lean_stage([], ["Verif.Props.C07", "Verif.Props.ScanRules", "Verif.Props.ScanRules2", "Verif.Props.ScanRules2b", "Verif.Props.ListRules"])
+    ctx.lean_stage([], ["Verif.Props.C07", "Verif.Props.ScanRules", "Verif.Props.ScanRules1b", "Verif.Props.ScanRules2", "Verif.Props.ScanRules2b", "Verif.Props.ListRules"])
     __import__("blocks").listrules(ctx)      # md007_total_partial (+ md007_total_excluded_known_crash), md006_total, md00X_reports_in_range
     __import__("blocks").scanrules2(ctx)     # mdX_reports_in_range / mdX_total for MD011 MD013 MD014 MD033 MD034 (adjust034_bounds), excluded points = real crashes
     __import__("blocks").scanrules(ctx)      # mdX_reports_in_range for ten scan-only token rules (every report sits on a token of the stream; MD026 delta bounds)
